@@ -397,6 +397,7 @@ class Walker:
         self.paths = 0
         self.forks = 0
         self.steps = 0
+        self.diverging = []
 
     # statements executed over all paths of one walker; beyond this the code
     # has a shape whose paths the enumerator cannot cover in reasonable time:
@@ -1309,8 +1310,20 @@ class Walker:
             if i >= self.d.loop_bound:
                 self.cuts += 1
                 continue
+            pure_test = not any(isinstance(x, (ast.Call, ast.NamedExpr))
+                                for x in ast.walk(n.test))
+            before = (dict(s.versions), {k: v.text for k, v in
+                                         s.frame.env.items()}) \
+                if pure_test else None
             for ex in self.block(n.body, s):
                 if ex.kind in ('fall', 'continue'):
+                    if pure_test and before == (
+                            dict(ex.state.versions),
+                            {k: v.text for k, v in
+                             ex.state.frame.env.items()}):
+                        # an iteration that changes nothing the (call-free)
+                        # test can see: the loop never ends on this path
+                        self.diverging.append(n)
                     yield from self.while_(n, ex.state, i + 1)
                 elif ex.kind == 'break':
                     yield Exit('fall', ex.state)
